@@ -352,7 +352,7 @@ class _Ctx:
             self.truthy_only += int(cfg.forall_truthy_literals)
             self.no_pred += int(cfg.forall_no_predicates)
             try:
-                inner = self.cond_using(inner_scope, loc, max(0, depth - 2), neg)
+                inner = self.cond_using(inner_scope, loc, max(1, depth - 1), neg)
             finally:
                 self.truthy_only -= int(cfg.forall_truthy_literals)
                 self.no_pred -= int(cfg.forall_no_predicates)
